@@ -24,17 +24,36 @@ struct LogInner {
     w: BufWriter<fs::File>,
     seq: u64,
     pub lines: u64,
+    /// While muted nothing is written (screening runs of the schedule search); a panic reported
+    /// by a muted event is remembered.
+    muted: bool,
+    muted_panic: bool,
 }
 
 impl Log {
     pub fn create(path: &Path) -> std::io::Result<Log> {
         Ok(Log {
-            inner: Mutex::new(LogInner { w: BufWriter::new(fs::File::create(path)?), seq: 0, lines: 0 }),
+            inner: Mutex::new(LogInner { w: BufWriter::new(fs::File::create(path)?), seq: 0, lines: 0, muted: false, muted_panic: false }),
         })
+    }
+
+    /// Mute / unmute the log; unmuting returns whether a muted event reported a panic.
+    pub fn set_muted(&self, m: bool) -> bool {
+        let mut g = self.inner.lock().unwrap();
+        g.muted = m;
+        let p = g.muted_panic;
+        g.muted_panic = false;
+        p
     }
 
     pub fn emit(&self, v: Value) {
         let mut g = self.inner.lock().unwrap();
+        if g.muted {
+            if v.get("panic").and_then(|x| x.as_bool()) == Some(true) && v.get("crashed").and_then(|x| x.as_bool()) != Some(true) {
+                g.muted_panic = true;
+            }
+            return;
+        }
         serde_json::to_writer(&mut g.w, &v).unwrap();
         g.w.write_all(b"\n").unwrap();
         g.w.flush().unwrap();
@@ -44,6 +63,9 @@ impl Log {
     /// Emit an op event, assigning its sequence number under the log's lock.
     pub fn emit_op(&self, mut v: Value) {
         let mut g = self.inner.lock().unwrap();
+        if g.muted {
+            return;
+        }
         g.seq += 1;
         v["seq"] = json!(g.seq);
         serde_json::to_writer(&mut g.w, &v).unwrap();
